@@ -172,3 +172,51 @@ example : (step ⟨[⟨"a", true, 0⟩, ⟨"b", false, 0⟩], [], [⟨"c", true,
     [⟨"d", true, 9⟩, ⟨"c", true, 5⟩] := by decide
 
 end QuaiVerif.Route
+
+namespace QuaiVerif.Route
+open List
+
+/-- inserting into a list sorted by decreasing slip puts the element behind every element of the same slip -/
+theorem insertBySlip_filter (e : Etx) (l : List Etx) (hs : l.Pairwise (fun a b => b.slip ≤ a.slip)) (k : Nat) :
+    (insertBySlip e l).filter (fun x => x.slip == k) =
+      if e.slip = k then l.filter (fun x => x.slip == k) ++ [e] else l.filter (fun x => x.slip == k) := by
+  induction l with
+  | nil => by_cases h : e.slip = k <;> simp [insertBySlip, h]
+  | cons x rest ih =>
+    have hx := pairwise_cons.mp hs
+    unfold insertBySlip
+    by_cases hlt : x.slip < e.slip
+    · simp only [hlt, if_true]
+      by_cases h : e.slip = k
+      · -- nothing in x :: rest has slip k (they are all smaller than e.slip)
+        have hnone : (x :: rest).filter (fun y => y.slip == k) = [] := by
+          apply filter_eq_nil_iff.mpr
+          intro y hy
+          have : y.slip ≤ x.slip := by
+            rcases mem_cons.mp hy with rfl | hy
+            · exact Nat.le_refl _
+            · exact hx.1 y hy
+          simp; omega
+        simp [filter_cons, h, hnone]
+      · simp [filter_cons, h]
+    · simp only [hlt, if_false]
+      rw [filter_cons, ih hx.2]
+      by_cases h : e.slip = k <;> by_cases hxk : x.slip = k <;> simp [filter_cons, h, hxk]
+
+/-- **C04 (prime's sort is stable)**: ETXs with the same slippage bound keep the order in which they were rolled up. -/
+theorem C04_prime_sort_is_stable (l : List Etx) (k : Nat) :
+    (sortBySlip l).filter (fun x => x.slip == k) = l.filter (fun x => x.slip == k) := by
+  unfold sortBySlip
+  suffices ∀ acc : List Etx, acc.Pairwise (fun a b => b.slip ≤ a.slip) →
+      (l.foldl (fun acc e => insertBySlip e acc) acc).filter (fun x => x.slip == k) =
+        acc.filter (fun x => x.slip == k) ++ l.filter (fun x => x.slip == k) by
+    simpa using this [] Pairwise.nil
+  induction l with
+  | nil => intro acc _; simp
+  | cons x rest ih =>
+    intro acc hacc
+    simp only [foldl_cons]
+    rw [ih _ (insertBySlip_sorted x acc hacc), insertBySlip_filter x acc hacc k]
+    by_cases h : x.slip = k <;> simp [filter_cons, h]
+
+end QuaiVerif.Route
